@@ -474,13 +474,16 @@ def sharing_structure(r_py):
             [copy.deepcopy(pick)]]
 
 
-def run_history(r_py, o, with_copy=True):
+NREPARSE = 2
+
+
+def run_history(r_py, o, with_copy=True, snap=None):
     """continues the round trip `o` of r: (1) str(r) again after an edited deep copy was formatted,
-    (2) the caller edits the returned structure in place and the SAME string is parsed again,
-    (3) a different relation sharing an alternative makes the round trip.  -> dict of observations"""
+    (2) NREPARSE times: the caller edits the latest returned structure in place and the SAME string
+    is parsed again, (3) a different relation sharing an alternative makes the round trip.
+    -> dict of observations"""
     from debian.deb822 import PkgRelation
-    h = {"exc": "", "fmtsame": True, "rc": None, "o_rc": None, "p2": None, "warn2": [], "s2b": None,
-         "r_share": None, "o_share": None}
+    h = {"exc": "", "fmtsame": True, "rc": None, "o_rc": None, "re": [], "r_share": None, "o_share": None}
     stage = "PkgRelation.str (second time)"
     try:
         if with_copy:
@@ -490,14 +493,17 @@ def run_history(r_py, o, with_copy=True):
             else:
                 h["o_rc"] = run_real(h["rc"])
             h["fmtsame"] = PkgRelation.str(r_py) == o["s"]
-        edit_in_place(o["p"])
-        stage = "parse_relations (second time)"
-        with warnings.catch_warnings(record=True) as w:
-            warnings.simplefilter("always")
-            h["p2"] = PkgRelation.parse_relations(o["s"])
-            stage = "PkgRelation.str of the second parse"
-            h["s2b"] = PkgRelation.str(h["p2"])
-        h["warn2"] = ["%s: %s" % (x.category.__name__, x.message) for x in w]
+        latest = o["p"]
+        for k in range(NREPARSE):
+            edit_in_place(latest)
+            stage = "parse_relations (call %d on the same string)" % (k + 2)
+            with warnings.catch_warnings(record=True) as w:
+                warnings.simplefilter("always")
+                latest = PkgRelation.parse_relations(o["s"])
+                # (snapshots are taken now: the structure is edited in the next round)
+                h["re"].append({"eq": latest == r_py, "repr": repr(latest), "s": PkgRelation.str(latest),
+                                "warn": ["%s: %s" % (x.category.__name__, x.message) for x in w],
+                                "abs": snap(latest) if snap else None})
     except Exception as e:       # noqa: BLE001 -- observation
         h["exc"] = "%s in %s: %s" % (type(e).__name__, stage, e)
         return h
@@ -517,16 +523,16 @@ def judge_history(r_py, o, h):
         m = judge(h["rc"], h["o_rc"])
         if m:
             return "edited copy of r (right after r itself made the round trip): " + m
-    if h["p2"] != r_py:
-        return ("parse_relations(%r) -- parsed before, the caller edited that result in place -- = %r, "
-                "specification (Parse does not depend on history): %r" % (o["s"], h["p2"], r_py))
-    if h["warn2"]:
-        return "second parse_relations(%r) emitted %r" % (o["s"], h["warn2"][0])
-    if h["s2b"] != o["s"]:
-        return "str of the second parse_relations(%r) = %r" % (o["s"], h["s2b"])
+    for k, e in enumerate(h["re"]):
+        if not e["eq"] or e["s"] != o["s"] or e["warn"]:
+            what = ("= %s" % e["repr"]) if not e["eq"] else (
+                "emitted %r" % e["warn"][0] if e["warn"] else "formats as %r" % e["s"])
+            return ("call %d of parse_relations(%r) -- the caller had edited the structure returned by call %d in "
+                    "place -- %s, specification (Parse does not depend on history): %r, no warning, same string"
+                    % (k + 2, o["s"], k + 1, what, r_py))
     m = judge(h["r_share"], h["o_share"])
     if m:
-        return "relation sharing an alternative with %r (whose parse the caller had edited in place): %s" % (o["s"], m)
+        return "relation sharing an alternative with %r (whose parses the caller had edited in place): %s" % (o["s"], m)
     return None
 
 
@@ -899,21 +905,29 @@ def record(r_py):
              "exc": exc,
              "t2": tokenize(o["s2"], conc) if o["s2"] is not None else [],
              "same": o["s2"] is not None and o["s2"] == o["s"],
-             "p2": [], "warn2": False, "same2": False, "rs": [], "ts": [], "ps": [], "warns": False, "sames": False,
+             "re": [], "rs": [], "ts": [], "ps": [], "warns": False, "sames": False,
              "fmtsame": False}
     if not exc:
-        h = run_history(r_py, o, with_copy="fmt")
+        def snap(x):
+            try:
+                return abstract(x, conc)
+            except Malformed:
+                return None
+        h = run_history(r_py, o, with_copy="fmt", snap=snap)
         osh = h["o_share"]
         hexc = h["exc"] or (osh["exc"] if osh else "")
         observed["history"] = {
-            "second_parse_after_in_place_edit": repr(h["p2"]), "warnings": h["warn2"], "exception": hexc,
+            "later_parses_after_in_place_edits": [e["repr"] for e in h["re"]],
+            "warnings": [x for e in h["re"] for x in e["warn"]], "exception": hexc,
             "str_r_unchanged_after_formatting_an_edited_copy": h["fmtsame"],
             "sharing_relation_string": osh["s"] if osh else None, "sharing_relation_parse": repr(osh["p"]) if osh else None,
             "sharing_relation_warnings": osh["warn"] if osh else None}
         try:
             if hexc:
                 raise Malformed(hexc)
-            trace.update({"p2": abstract(h["p2"], conc), "warn2": bool(h["warn2"]), "same2": h["s2b"] == o["s"],
+            if any(e["abs"] is None for e in h["re"]):
+                raise Malformed("re-parse")
+            trace.update({"re": [{"p": e["abs"], "warn": bool(e["warn"]), "same": e["s"] == o["s"]} for e in h["re"]],
                           "rs": abstract(h["r_share"], conc), "ts": tokenize(osh["s"], conc),
                           "ps": abstract(osh["p"], conc), "warns": bool(osh["warn"]), "sames": osh["s2"] == osh["s"],
                           "fmtsame": bool(h["fmtsame"])})
@@ -1030,7 +1044,7 @@ def control_traces(traces):
         out.append(t)
     t = first(lambda t: any(a["a"]["some"] for alts in t["r"] for a in alts))
     if t:                                           # the second parse shows the caller's edit (a sharing memo)
-        for alts in t["p2"]:
+        for alts in t["re"][-1]["p"]:
             for a in alts:
                 if a["a"]["some"]:
                     a["a"]["l"].append({"e": False, "id": 1})
@@ -1092,8 +1106,8 @@ def explain(meta, at):
         return "str(r) = %r; raised %s" % (meta["string"], o["exception"])
     if at >= 4 and o.get("history"):
         hh = o["history"]
-        return "[%s] str(r) = %r; first parse_relations returned %s; after the in-place edit it returned %s%s; sharing relation %r parsed as %s%s; str(r) unchanged after formatting an edited copy: %s" % (
-            STEP.get(at, "?"), meta["string"], o["parsed"], hh["second_parse_after_in_place_edit"],
+        return "[%s] str(r) = %r; first parse_relations returned %s; after in-place edits of the returned structures the later calls returned %s%s; sharing relation %r parsed as %s%s; str(r) unchanged after formatting an edited copy: %s" % (
+            STEP.get(at, "?"), meta["string"], o["parsed"], " then ".join(hh["later_parses_after_in_place_edits"]),
             ("; warnings %r" % hh["warnings"]) if hh["warnings"] else "", hh["sharing_relation_string"],
             hh["sharing_relation_parse"], ("; warnings %r" % hh["sharing_relation_warnings"]) if hh["sharing_relation_warnings"] else "",
             hh["str_r_unchanged_after_formatting_an_edited_copy"])
